@@ -108,12 +108,14 @@ class CursorEngine:
         self.peek_wrappers = {}     # FuncDef of a wrapper factory -> proven delta-0?
 
     # ------------------------------------------------------------------ public
-    def run(self, entry_fq='reader.read_tex', avail=0):
+    def run(self, entry_fq='reader.read_tex', avail=0, entry_consts=None):
         fd = self.repo.need_func(entry_fq)
         params = fd.params()
-        # the entry point's options are unknown (both tolerance modes, any skip list)
+        # the entry point's options are unknown (both tolerance modes, any skip list) unless fixed by the caller
         bound = {p: ('unknown',) for p in params}
         bound[params[0]] = ('cursor',)
+        for p, v in (entry_consts or {}).items():
+            bound[p] = v
         for _ in range(12):
             self.changed = False
             self.inprogress.clear()
@@ -314,12 +316,18 @@ class CursorInterp(Interp):
                 return [(('unknown',), st)]
             if off < 0:
                 return [(('maybe', off), st)]
+            if off >= CAP_AVAIL:
+                # beyond what the availability counter can express: not tracked (no claim either way)
+                return [(('unknown',), st)]
             if st.avail > off:
                 return [(('tok',), st)]
             if st.eof and off >= 0:
                 return [(('const', None), st)]
             return [(('maybe', off), st)]
-        if meth in ('startswith', 'endswith'):
+        if meth == 'startswith':
+            # a non-empty prefix test can only succeed if an item exists
+            return [(('prefixtest',), st)]
+        if meth == 'endswith':
             return [(('unknown',), st)]
         if meth == 'forward':
             k = 1
@@ -846,6 +854,12 @@ class CursorInterp(Interp):
             return [(True, st), (False, st)]
         if t == 'tokslice':
             return [(True, st), (False, st)] if v[1] == 0 or True else [(True, st)]
+        if t == 'prefixtest':
+            if st.eof:
+                return [(False, st)]
+            s_t = st.copy()
+            s_t.avail = max(s_t.avail, 1)
+            return [(True, s_t), (False, st)]
         if t == 'boolfact':
             s_t, s_f = st.copy(), st.copy()
             s_t.avail = max(s_t.avail, v[1])
@@ -1008,7 +1022,32 @@ class CursorInterp(Interp):
             outs.append((out, s2))
         return outs
 
+    def _bounded_by_lookahead_offset(self, loop):
+        """`while cur.peek(v) ...: ...; v += c` -- the loop walks a look-ahead offset over the (finite) buffer"""
+        offs = set()
+        for n in ast.walk(loop.test):
+            if isinstance(n, ast.Call) and isinstance(n.func, ast.Attribute) and n.func.attr in ('peek', 'hasNext') and n.args \
+                    and isinstance(n.args[0], ast.Name):
+                offs.add(n.args[0].id)
+        if not offs:
+            return False
+        for s in loop.body:
+            if isinstance(s, ast.AugAssign) and isinstance(s.op, ast.Add) and isinstance(s.target, ast.Name) and s.target.id in offs \
+                    and isinstance(s.value, ast.Constant) and isinstance(s.value.value, int) and s.value.value > 0:
+                # unconditional increment at the top level of the body; no `continue` may skip it
+                before = loop.body[:loop.body.index(s)]
+                if not any(isinstance(x, ast.Continue) for b in before for x in ast.walk(b)):
+                    return True
+        return False
+
     def on_backedge(self, loop, st):
+        if not st.prog[-1] and self._bounded_by_lookahead_offset(loop):
+            s = st.copy()
+            s.prog = s.prog[:-1] + (False,)
+            for k, v in list(s.vars.items()):
+                if v[0] == 'const' and isinstance(v[1], int) and not isinstance(v[1], bool) and abs(v[1]) > 3:
+                    s.vars[k] = ('int?',)
+            return [s]
         if not st.prog[-1]:
             self.eng.loop_sites[(self.realfd.fq, norm(loop.test))] = False
             self.eng.note('loop-without-progress', self.realfd, loop.test,
@@ -1079,7 +1118,7 @@ class CursorInterp(Interp):
 
 # --------------------------------------------------------------------------- driver helpers
 
-def analyse_reader(repo):
+def analyse_reader(repo, entry_consts=None):
     eng = CursorEngine(repo)
-    eng.run('reader.read_tex', 0)
+    eng.run('reader.read_tex', 0, entry_consts)
     return eng
